@@ -27,6 +27,10 @@ CLAIMED = {
    text="Config.tla states the relation Allowed(written, outcome): must refuse (range-documented key out of range, missing required, unknown key, bad seed), must run with exactly the written values (everything in range), or may refuse but never run with other values. TLC enumerates a valid base plus 1 (quick) / 2 (thorough) edits over an 18-value boundary grid for the six integer keys and the seed/interface/client_stats/persistence/unknown-key variants for both sources; the harness probes every case through make_config + is_valid_config + getters (documented variable names) and TLC decides each probe and a seeded stream of multi-key configurations (Trace_Config.tla).",
    note="The probe does not start the server; refused = Err, panic or is_valid_config false; TLC ints are 32-bit so observed values above 2e9 are clamped.",
    technique="TLA+ relation + TLC enumeration of written configurations; probes of the real loaders decided by trace validation"),
+ "C17": dict(level="model_checking", ref="6 C17",
+   text="Stats.tla models per-worker per-client and aggregated recorders, the snapshot queue and the reporter; TLC checks Conservation, Bounded, UntrackedZero, MergePreserves, Equivalent and the action property Exclusive on every sequence of the 8 recording ops x 3 addresses (+ snapshot/merge/report) up to 3 (quick) / 4 with 2 workers (thorough) ops, and emits one behaviour per transition; each is executed on real PerClientStats(limit)/AggregatedStats/StatsQueue/Reporter objects logging the projection after every op, and TLC validates every step of those logs and of seeded sequences up to 10,000 ops (Trace_Stats.tla: logged post-state must be an allowed outcome; invariants evaluated in every state).",
+   note="Property level allows either counting or overflowing an event for an already-tracked address when the table is full (code overflows). Snapshot replicates Server::send_client_stats on library objects; the running server's wiring is checked by the server suite stage when present.",
+   technique="TLA+ state machine + TLC; behaviours replayed into the real recorders; step-wise trace validation against Stats.tla"),
 }
 PENDING_REASON = "check not built yet in this session (see DESIGN.md section 6 for the planned TLA+ treatment)"
 
